@@ -488,6 +488,24 @@ def gen_active(rng, spec):
     return dict(kind=k, categories=cats[i:j + 1])
 
 
+def huge_int_specs(rng):
+    """Integer domains whose bounds are so large that the 1e-8 EPS margin of
+    [l - 0.5 + EPS, u + 0.5 - EPS] is absorbed by binary64 (bounds 2**24 .. 2**53, odd and even,
+    powers of two +- 1): the exact corners of the unit cube then sit ON a rounding threshold."""
+    out = []
+    exps = [24, 27, 28, 31, 32, 40, 52, 53]
+    for e in rng.sample(exps, 4) + [31]:
+        b = 2 ** e
+        for hi in (b - 1, b, b + 1 if e < 53 else b - 3):
+            out.append(dict(kind="randint", lower=rng.choice([0, 1, -5, -(b - 1), b // 2 + 1]), upper=hi))
+            out.append(dict(kind="lograndint", lower=rng.choice([1, 2, 3, b // 2 + 1]), upper=hi))
+        lo = b + 1 if e < 53 else b - 1
+        out.append(dict(kind="randint", lower=lo, upper=lo + rng.choice([0, 1, 2, 10, b // 2])))
+        out.append(dict(kind="randint", lower=-lo, upper=-lo + rng.choice([1, 7, b])))
+        out.append(dict(kind="lograndint", lower=lo, upper=lo + rng.choice([0, 1, 10, b // 2])))
+    return [sp for sp in out if abs(sp["lower"]) <= 2 ** 53 and abs(sp["upper"]) <= 2 ** 53]
+
+
 def thresholds_unit(spec, rng):
     """Points of [0,1] where the model's decode switches value (computed with exact rationals, the same
     formulas as the model: v * size + lower_internal = k + 1/2), as floats around them."""
@@ -656,6 +674,9 @@ def run(ctx, replay=None):
                   dict(kind="finrange", lower=0.0, upper=1.0, size=5, cast_int=True),
                   dict(kind="lograndint", lower=1, upper=10 ** 9), dict(kind="reverseloguniform", lower=0.0, upper=0.9),
                   dict(kind="reverseloguniform", lower=0.1, upper=0.9)]
+        huge = huge_int_specs(rng)
+        rng.shuffle(huge)
+        specs = huge[:ctx.n(14, 60)] + specs     # first: their violations are reported first
         spaces = None
 
     only = replay.get("only") if replay else None
@@ -932,6 +953,9 @@ def range_cases(ctx, C, spec, active, dom, adom, hpr, rng, count, scale):
     else:
         vecs += [[0.0], [1.0], [0.5], [rng.random()], [rng.random()]]
         vecs += [[t] for t in thresholds_unit(spec, rng)[:ctx.n(6, 15)]]
+        if kind in ("randint", "lograndint", "qrandint", "qlograndint"):
+            # +-1 ulp from the exact corners
+            vecs += [[float(np.nextafter(0.0, 1.0))], [float(np.nextafter(1.0, 0.0))]]
     inb = []
     if ok:
         inb.append([a for a, b in bounds])
@@ -960,6 +984,7 @@ def range_cases(ctx, C, spec, active, dom, adom, hpr, rng, count, scale):
                           case=case, signature=dict(domain=dname, constructor=kind, op="from_ndarray",
                                                     defect="decoded_not_member", magnitude=cm["magnitude"],
                                                     scaling=scaling_name(kind)))
+            continue   # no round trip of a non-member
         elif ca is not None:
             act_zero = onehot and all(v[i] == 0.0 for i, c in enumerate(spec["categories"]) if c in active["categories"])
             ctx.violation("property", "from_ndarray(%r) (inside get_ndarray_bounds %r) of %r with active %r = %r: outside the active sub-range" % (
@@ -1027,6 +1052,13 @@ def space_cases(ctx, C, rng, cs, make_hpr, spaces):
             fix = last is not None and rng.random() < 0.6
             spaces.append(dict(space=sp, active=act, prefix_keys=prefix, name_last_pos=last, fix_last=fix,
                                seed=rng.randrange(2 ** 31)))
+        # mixed spaces around a huge integer domain (corners of the whole cube are decoded below)
+        for h in huge_int_specs(rng)[:ctx.n(6, 40)]:
+            sp = {"seed": h, "lr": gen_spec(rng, "loguniform"), "act": gen_spec(rng, "choice"),
+                  "layers": gen_spec(rng, "randint")}
+            last = rng.choice([None, "seed"])
+            spaces.append(dict(space=sp, active={}, prefix_keys=rng.choice([None, ["seed"]]), name_last_pos=last,
+                               fix_last=False, seed=rng.randrange(2 ** 31)))
     for S in spaces:
         okb, built = call(lambda: {k: build(v) for k, v in S["space"].items()})
         if not okb:
@@ -1127,6 +1159,8 @@ def space_cases(ctx, C, rng, cs, make_hpr, spaces):
                 [rng.random() for _ in range(n)]]
         if okx:
             vecs.append([a + (b - a) * rng.random() for a, b in bounds])
+        if any(abs(s_.get("upper", 0)) >= 2 ** 24 for s_ in specs):
+            vecs += [[float(np.nextafter(0.0, 1.0))] * n, [float(np.nextafter(1.0, 0.0))] * n]
         for vi, v in enumerate(vecs):
             okd, cfg = call(lambda: hpr.from_ndarray(np.array(v)))
             pool = Pool()
